@@ -15,3 +15,4 @@ MODULES += ["testing"]
 MODULES += ["lemmas"]
 MODULES += ["generators"]
 MODULES += ["logwriter"]
+MODULES += ["readers"]
